@@ -400,6 +400,23 @@ func (c *scen) cardSecurityScenarios() {
 	c.fail(err)
 	c.add("forgery", "cardsecurity-signed-by-foreign-key", "EF.CardSecurity carries the DS certificate but is signed with another key", sod, nil, nil).CardSec = forged
 
+	// a second document signer, valid 2020-01-01 .. 2025-06-30: inside at the signing time of EF.SOD, outside at
+	// the signing time the card security object states for itself (each object is judged at ITS OWN signing time)
+	if ds2, err := c.csca.IssueDS(CertSpec{Rand: c.sub(41), Subject: DN("NL", "State of the Netherlands", "DS CardSecurity"), KeySlot: slotDS2,
+		NotBefore: time.Date(2020, 1, 1, 0, 0, 0, 0, time.UTC), NotAfter: time.Date(2025, 6, 30, 0, 0, 0, 0, time.UTC)}); err != nil {
+		c.fail(err)
+	} else {
+		late, err := BuildCardSecurity(NewCardSecuritySpec(ds2, TestSecurityInfos(), time.Date(2027, 1, 15, 0, 0, 0, 0, time.UTC)))
+		c.fail(err)
+		c.add("forgery", "cardsecurity-signer-expired-at-its-own-signing-time", "EF.CardSecurity states signing time 2027-01-15, its DS certificate expired 2025-06-30 (and is valid at the signing time of EF.SOD)", sod, nil, nil).CardSec = late
+		early, err := BuildCardSecurity(NewCardSecuritySpec(ds2, TestSecurityInfos(), time.Date(2019, 6, 1, 0, 0, 0, 0, time.UTC)))
+		c.fail(err)
+		c.add("forgery", "cardsecurity-signer-not-yet-valid-at-its-own-signing-time", "EF.CardSecurity states signing time 2019-06-01, before its DS certificate's notBefore (valid at the signing time of EF.SOD)", sod, nil, nil).CardSec = early
+		ok2, err := BuildCardSecurity(NewCardSecuritySpec(ds2, TestSecurityInfos(), time.Date(2025, 6, 1, 0, 0, 0, 0, time.UTC)))
+		c.fail(err)
+		c.add("genuine", "cardsecurity-second-ds-own-signing-time", "EF.CardSecurity signed by a second DS at another signing time than EF.SOD, both inside their certificates' validity", sod, nil, nil).CardSec = ok2
+	}
+
 	spec = NewCardSecuritySpec(c.ds, TestSecurityInfos(), ScenarioSigningTime)
 	spec.SD.Indefinite = true
 	ind, err := BuildCardSecurity(spec)
@@ -445,6 +462,14 @@ func (c *scen) masterListScenarios() {
 	ml, err := BuildMasterList(mls, certs, MasterListSpec{SigningTime: &st, ExtraCerts: [][]byte{c.csca.Cert}})
 	c.fail(err)
 	addML("genuine", "master-list", "CscaMasterList with 4 CSCA certificates (NL, DE, FR, FR link) signed by a master list signer of the NL CSCA", ml, c.csca.Cert)
+	if evil, err := NewCA(CertSpec{Rand: c.sub(51), Subject: DN("NL", "State of the Netherlands", "CSCA NL"), KeySpec: c.ks, KeySlot: slotOtherCA}); err != nil {
+		c.fail(err)
+	} else {
+		// SignedData.certificates is not covered by the signature: whatever travels there must not enter the trust store
+		ml2, err := BuildMasterList(mls, certs, MasterListSpec{SigningTime: &st, ExtraCerts: [][]byte{c.csca.Cert, evil.Cert}})
+		c.fail(err)
+		addML("genuine", "master-list-with-unsigned-foreign-certificate-embedded", "genuine master list with an additional self-signed CA certificate in SignedData.certificates (outside the signed certList)", ml2, c.csca.Cert)
+	}
 	addML("forgery", "master-list-foreign-root", "the same master list checked against the DE CSCA as root", ml, de.Cert)
 	bad, err := BuildMasterList(mls, certs, MasterListSpec{SigningTime: &st, SD: SignedDataSpec{Signers: []SignerSpec{{ID: &mls.Entity, SigningTime: &st, CorruptSignature: true}}}})
 	c.fail(err)
